@@ -9,6 +9,7 @@ pub type F162 = Bvf<u16, 2>;
 pub type F641 = Bvf<u64, 1>;
 pub type F642 = Bvf<u64, 2>;
 pub type F1281 = Bvf<u128, 1>;
+pub type F816 = Bvf<u8, 16>;
 
 
 /// reference-model arithmetic at a given machine width (u32 for the small Kani types, u128 for the 128-bit ones)
@@ -82,6 +83,7 @@ binops!(m128, and__bvd_f82, or__bvd_f82, xor__bvd_f82, add__bvd_f82, sub__bvd_f8
 binops!(m128, and__bvd_f642, or__bvd_f642, xor__bvd_f642, add__bvd_f642, sub__bvd_f642, mul__bvd_f642, cmp__bvd_f642, Bvd, F642);
 binops!(m128, and__bvd_f1281, or__bvd_f1281, xor__bvd_f1281, add__bvd_f1281, sub__bvd_f1281, mul__bvd_f1281, cmp__bvd_f1281, Bvd, F1281);
 binops!(m128, and__f1281_bvd, or__f1281_bvd, xor__f1281_bvd, add__f1281_bvd, sub__f1281_bvd, mul__f1281_bvd, cmp__f1281_bvd, F1281, Bvd);
+binops!(m128, and__f1281_f816, or__f1281_f816, xor__f1281_f816, add__f1281_f816, sub__f1281_f816, mul__f1281_f816, cmp__f1281_f816, F1281, F816);
 binops!(m128, and__f1281_f642, or__f1281_f642, xor__f1281_f642, add__f1281_f642, sub__f1281_f642, mul__f1281_f642, cmp__f1281_f642, F1281, F642);
 binops!(m128, and__bv_f1281, or__bv_f1281, xor__bv_f1281, add__bv_f1281, sub__bv_f1281, mul__bv_f1281, cmp__bv_f1281, Bv, F1281);
 binops!(m128, and__bv_bv, or__bv_bv, xor__bv_bv, add__bv_bv, sub__bv_bv, mul__bv_bv, cmp__bv_bv, Bv, Bv);
